@@ -278,9 +278,10 @@ def _real_svg_infoset(repo, ob, failure):
     return None
 
 
-@generator("C19.content.decoded")
+@generator("C19.content.")
 def _content_text(repo, ob, failure):
-    for doc, want in (('<svg><text xy="1">a &amp; b</text></svg>', "a & b"), ('<svg><rect wh="9">x &lt; y</rect></svg>', "x < y")):
+    for doc, want in (('<svg><text xy="1">a &amp; b</text></svg>', "a & b"), ('<svg><rect wh="9">x &lt; y</rect></svg>', "x < y"),
+                      ('<svg><rect wh="9">  padded  </rect></svg>', "  padded  "), ('<svg><text xy="1"> lead</text></svg>', " lead")):
         r = run_svgdx(repo, doc)
         if r["rc"] != 0:
             continue
@@ -832,9 +833,11 @@ def _reuse_placement(repo, ob, failure):
              ("nested_reuse", '<svg><specs><rect id="r" wh="5"/><reuse id="t" href="#r"/></specs><reuse href="#t" x="20" y="30"/></svg>', r'<rect (x="20" y="30" width="5" height="5"|width="5" height="5" transform="translate\(20, 30\)")'),
              ("rectlike", '<svg><specs><rect id="t" wh="5"/></specs><reuse href="#t" x="20" y="30"/></svg>', r'<rect x="20" y="30" width="5" height="5"'),
              ("circle", '<svg><specs><circle id="t" cxy="0" r="5"/></specs><reuse href="#t" x="20" y="30"/></svg>', r'<circle cx="25" cy="35" r="5"'),
-             ("group", '<svg><specs><g id="t"><rect wh="5"/></g></specs><reuse href="#t" x="20" y="30"/></svg>', r'<g [^>]*transform="translate\(20, 30\)"')]
+             ("group", '<svg><specs><g id="t"><rect wh="5"/></g></specs><reuse href="#t" x="20" y="30"/></svg>', r'<g [^>]*transform="translate\(20, 30\)"'),
+             ("via_transform", '<svg><specs><polyline id="t" points="0 0 10 5"/></specs><reuse href="#t" x="-20" y="-30"/></svg>', r'<polyline [^>]*transform="translate\(-20, -30\)"'),
+             ("via_transform", '<svg><specs><polyline id="t" points="0 0 10 5"/></specs><reuse href="#t" x="-15"/></svg>', r'<polyline [^>]*transform="translate\(-15, 0\)"')]
     mine = [c for c in cases if ("place." + c[0]) in lab]
-    cases = mine or [c for c in cases if c[0] in ("rectlike", "circle", "group")]     # never hand another obligation's known witness out
+    cases = mine or [c for c in cases if c[0] in ("rectlike", "circle", "group", "via_transform")]     # never hand another obligation's known witness out
     for kind, doc, want in cases:
         r = run_svgdx(repo, doc)
         if r["rc"] != 0:
@@ -913,3 +916,44 @@ GENERATORS.insert(0, ("C15.container.", _container_scope))
 GENERATORS.insert(0, ("C15.group.", _container_scope))
 GENERATORS.insert(0, ("C15.reuse.", _container_scope))
 GENERATORS.insert(0, ("C15.scope.outer", _container_scope))
+
+
+def _path_subpaths(repo, ob, failure):
+    """the box of a <path> follows SVG path semantics: closepath returns to the start of the CURRENT
+    sub-path (set by the last moveto), relative commands continue from there"""
+    import re as _re
+    cases = [('<svg><path d="M 10 10 h 5 v 5 z M 30 30 h 5 v 5 z m 10 10 h 5"/></svg>', "10 10 35 30"),
+             ('<svg><path d="M0 0 L1 1 M 10 10 L 20 10 z l 5 5"/></svg>', "0 0 20 15"),
+             ('<svg><path d="M 10 10 h 5 v 5 z m 10 10 h 5"/></svg>', "10 10 15 10"),
+             ('<svg><path d="M 2 3 l 4 0 l 0 4 z l -1 -1"/></svg>', "1 2 5 5"),
+             ('<svg><path d="M 1 1 5 1 5 5 z m 10 0 l 2 2"/></svg>', "1 1 12 4")]
+    for doc, want in cases:
+        r = run_svgdx(repo, doc, args=("--border", "0"))
+        if r["rc"] != 0:
+            continue
+        m = _re.search(r'viewBox="([^"]*)"', r["out"])
+        if not m or m.group(1) != want:
+            return {"input": doc, "args": ["--border", "0"], "observed": "viewBox=%r" % (m and m.group(1)), "expected": "viewBox=%r" % want}
+    return None
+
+
+GENERATORS.insert(0, ("C08.path.", _path_subpaths))
+
+
+def _clip_forward(repo, ob, failure):
+    """a clipped group contributes the same box whether its <clipPath> is defined before or after it"""
+    import re as _re
+    clip = '<defs><clipPath id="c"><rect xy="2 2" wh="3"/></clipPath></defs>'
+    for body in ('<g clip-path="url(#c)"><rect wh="10"/></g>', '<rect wh="10" clip-path="url(#c)"/>'):
+        outs = []
+        for doc in ('<svg>' + clip + body + '</svg>', '<svg>' + body + clip + '</svg>'):
+            r = run_svgdx(repo, doc, args=("--border", "0"))
+            m = _re.search(r'viewBox="([^"]*)"', r["out"]) if r["rc"] == 0 else None
+            outs.append((doc, m.group(1) if m else "rc=%s" % r["rc"]))
+        if outs[0][1] != outs[1][1]:
+            return {"input": outs[1][0], "args": ["--border", "0"], "observed": "viewBox %r" % outs[1][1], "expected": "viewBox %r (as with the clipPath defined first)" % outs[0][1]}
+    return None
+
+
+GENERATORS.insert(0, ("C08.clip.unknown", _clip_forward))
+GENERATORS.insert(0, ("C10.clip.unknown", _clip_forward))
